@@ -375,3 +375,39 @@ def example_text(path: Path) -> str:
 
 def enum_name(v):
     return v.get('name') if isinstance(v, dict) else v
+
+
+def diversify(rng, p: dict, level: float = 0.5) -> dict:
+    """random, valid variation of the physical side of a Grid configuration (so that branches that need an unusual
+    but accepted input — plant lowering the injection temperature, reservoir mined out, Ramey wellbore model, redrilling,
+    several wells, other ambient conditions — are reached by every whole-run generator, not only by the property that owns them)"""
+    pl = p.get('Power Plant Type')
+    eu = p.get('End-Use Option')
+    if rng.random() < level:
+        p['Injection Temperature'] = rng.choice([30, 50, 70, 85, 95])
+    if rng.random() < level * 0.6:
+        p['Reservoir Volume Option'] = 4
+        p['Reservoir Volume'] = rng.choice([5e7, 1.5e8, 4e8, 2e9])
+    if rng.random() < level * 0.6:
+        p['Ramey Production Wellbore Model'] = 1
+    if rng.random() < level:
+        p['Production Flow Rate per Well'] = rng.choice([20, 40, 55, 90])
+    if rng.random() < level:
+        p['Number of Production Wells'] = rng.choice([1, 2, 3, 4])
+        p['Number of Injection Wells'] = rng.choice([1, 2, 3])
+    if rng.random() < level * 0.5:
+        p['Ambient Temperature'] = rng.choice([5, 12, 20, 25])
+    if rng.random() < level * 0.5:
+        p['Utilization Factor'] = rng.choice([0.5, 0.8, 0.95, 1.0])
+    if rng.random() < level * 0.5 and pl not in (3, 4):
+        p['Maximum Drawdown'] = rng.choice([0.05, 0.2, 0.5])
+        p['Drawdown Parameter'] = rng.choice([0.01, 0.03])
+    if rng.random() < level * 0.5:
+        p['Reservoir Depth'] = rng.choice([2, 3, 4, 5.5])
+    if rng.random() < level * 0.4:
+        p['Water Loss Fraction'] = rng.choice([0.0, 0.05, 0.2])
+    if eu not in (1, None) and rng.random() < level:
+        p['End-Use Efficiency Factor'] = rng.choice([0.45, 0.7, 0.8, 1.0])
+    if rng.random() < level * 0.3:
+        p['Surface Piping Length'] = rng.choice([1, 5])
+    return p
